@@ -184,35 +184,49 @@ def repo_tag():
 
 
 def cargo_build(crate_dir, bin_name, profile="release", features=None, hooks=True, timeout=1800):
-    """Build one binary of a harness crate against REPO. The crate has Cargo.toml.in with
-    @REPO@ placeholder.  Returns (ok, binary_path, log)."""
+    """Build one binary of the harness crate against REPO.  The manifest is generated under
+    .cache/manifests/<repo tag>/ from <crate_dir>/Cargo.toml.in (@REPO@ = repository path,
+    @CRATE@ = crate dir) with explicit [lib]/[[bin]] paths, so concurrent checks against
+    different repository copies never share a Cargo.toml.  Returns (ok, binary_path, log)."""
+    import glob as _glob
     tmpl = open(os.path.join(crate_dir, "Cargo.toml.in")).read()
-    text = tmpl.replace("@REPO@", REPO)
-    ct = os.path.join(crate_dir, "Cargo.toml")
+    text = tmpl.replace("@REPO@", REPO).replace("@CRATE@", crate_dir)
+    text += "\n[lib]\nname = \"vharness\"\npath = \"%s/src/lib.rs\"\n" % crate_dir
+    for src in sorted(_glob.glob(os.path.join(crate_dir, "src", "bin", "*.rs"))):
+        nm = os.path.splitext(os.path.basename(src))[0]
+        text += "\n[[bin]]\nname = \"%s\"\npath = \"%s\"\n" % (nm, src)
+    for src in sorted(_glob.glob(os.path.join(crate_dir, "src", "bin", "*", "main.rs"))):
+        nm = os.path.basename(os.path.dirname(src))
+        text += "\n[[bin]]\nname = \"%s\"\npath = \"%s\"\n" % (nm, src)
+    tag = repo_tag() + ("" if hooks else "_nohook")
+    mdir = os.path.join(CACHE, "manifests", tag)
+    os.makedirs(mdir, exist_ok=True)
+    ct = os.path.join(mdir, "Cargo.toml")
     if not os.path.exists(ct) or open(ct).read() != text:
-        open(ct, "w").write(text)
+        tmp = ct + ".%d" % os.getpid()
+        open(tmp, "w").write(text)
+        os.replace(tmp, ct)
     lock_src = os.path.join(REPO, "Cargo.lock")
-    lock_dst = os.path.join(crate_dir, "Cargo.lock")
+    lock_dst = os.path.join(mdir, "Cargo.lock")
     if not os.path.exists(lock_dst) and os.path.exists(lock_src):
         shutil.copy(lock_src, lock_dst)
-    target = os.path.join(CACHE, "target", repo_tag(), os.path.basename(crate_dir.rstrip("/")) + ("" if hooks else "_nohook"))
+    target = os.path.join(CACHE, "target", tag)
     os.makedirs(target, exist_ok=True)
     env = {"CARGO_TARGET_DIR": target, "CARGO_NET_OFFLINE": "true"}
     if hooks:
         env["RUSTFLAGS"] = "--cfg %s" % GUARD
-    cmd = "cargo build --offline --bin %s" % bin_name
+    cmd = "cargo build --offline --manifest-path %s --bin %s" % (ct, bin_name)
     if profile == "release":
         cmd += " --release"
     if features:
         cmd += " --features " + ",".join(features)
-    rc, out = sh(cmd, cwd=crate_dir, env=env, timeout=timeout)
+    rc, out = sh(cmd, cwd=mdir, env=env, timeout=timeout)
     binp = os.path.join(target, "release" if profile == "release" else "debug", bin_name)
     return rc == 0 and os.path.exists(binp), binp, out
 
 
 def ocaml_build(ml_dir, main_files, exe, timeout=900):
     """ocamlfind ocamlopt the given files (in order) into <ml_dir>/<exe>."""
-    cmd = "ocamlfind ocamlopt -O3 -unboxed-types 2>/dev/null; true"
     cmd = "ocamlfind ocamlopt -w -a -o %s %s" % (exe, " ".join(main_files))
     rc, out = sh(cmd, cwd=ml_dir, timeout=timeout)
     return rc == 0, os.path.join(ml_dir, exe), out
@@ -224,9 +238,12 @@ def ocaml_build(ml_dir, main_files, exe, timeout=900):
 
 def known_findings():
     """Parse /verif/KNOWN_FINDINGS.txt -> ({(prop,key): text}, [fixed lines])."""
-    path = os.path.join(VERIF, "KNOWN_FINDINGS.txt")
+    import glob as _glob
+    paths = [os.path.join(VERIF, "KNOWN_FINDINGS.txt")] + sorted(_glob.glob(os.path.join(VERIF, "coq", "*", "findings.txt")))
     findings, fixed = {}, []
-    if os.path.exists(path):
+    for path in paths:
+        if not os.path.exists(path):
+            continue
         for ln in open(path):
             ln = ln.strip()
             if not ln or ln.startswith("#"):
